@@ -21,10 +21,14 @@ pub struct InnerBucket<'b> { _p: core::marker::PhantomData<&'b ()> }
 pub struct TxFreelist { _private: () }
 // the tree behind `bucket` lists this name as a nested bucket (so that looking it up cannot fail)
 pub uninterp spec fn names_a_bucket(b: InnerBucket, n: BucketName) -> bool;
+// the handle the bucket keeps REGISTERED for a child name (what InnerBucket::get_bucket answers with: units bucketops proves that a lookup
+// registers the handle and never swaps a registered one)
+pub uninterp spec fn registered_handle<'tx>(b: InnerBucket<'tx>, n: BucketName) -> Rc<RefCell<InnerBucket<'tx>>>;
 impl<'tx> InnerBucket<'tx> {
     #[verifier::external_body]
     pub fn get_bucket<'a, 'b>(&'a mut self, name: &BucketName<'b, 'tx>) -> (r: core::result::Result<Rc<RefCell<InnerBucket<'tx>>>, ()>)
         ensures names_a_bucket(*old(self), *name) ==> r is Ok,
+            r matches Ok(rc) ==> rc == registered_handle(*old(self), *name),
     { unimplemented!() }
 }
 pub struct Bucket<'b, 'tx: 'b> {
